@@ -65,7 +65,10 @@ CondHolds(row, cj, c) ==
     IN IF succ = {} THEN FALSE
        ELSE IF succ = reps THEN TRUE
        ELSE ~inv                                  \* mixed: a positive filter needs some, a negated one all
+\* cheap metadata filters of the alternative (number conditions on the client port: number + factor * cport >= 0)
+GateHolds(row, cj) == \A i \in DOMAIN row.conjs[cj].ports : row.conjs[cj].ports[i][2] + row.conjs[cj].ports[i][1] * row.cport >= 0
 ConjHolds(row, cj) ==
+    GateHolds(row, cj) /\
     IF row.reps = <<>> THEN \A c \in DOMAIN row.conjs[cj].conds : row.conjs[cj].conds[c].inv
     ELSE \A c \in DOMAIN row.conjs[cj].conds : CondHolds(row, cj, c)
 Verdict(row) == \E cj \in DOMAIN row.conjs : ConjHolds(row, cj)
